@@ -120,12 +120,16 @@ def handle (op : String) (j : Json) : Except String Json := do
     let init ← (← (← j.getObjVal? "init").getArr?).toList.mapM itemOfJson
     let fuel ← (← j.getObjVal? "fuel").getNat?
     let w : ImportLoop.World := { resolve := fun p => (paths.lookup p).join, parse := fun f => (files.lookup f).join }
+    -- the hypotheses of `config_load_terminates` on this world (U = the listed import paths) and its fuel bound
+    let U := paths.map (·.1)
+    let hyp := Json.bool (ImportLoop.closedWorld w U init)
+    let bound := Json.num (JsonNumber.fromNat (ImportLoop.total w U (ImportLoop.initSt init) + U.length + 4))
     match ImportLoop.fromPath w fuel init with
-    | none => pure (Json.mkObj [("fuel", .bool true)])
-    | some (.error (.unresolved p)) => pure (Json.mkObj [("err", Json.arr #[.str "unresolved", .str p])])
-    | some (.error (.parse f)) => pure (Json.mkObj [("err", Json.arr #[.str "parse", Json.num (JsonNumber.fromNat f)])])
-    | some (.error .index) => pure (Json.mkObj [("err", Json.arr #[.str "index"])])
-    | some (.ok s) => pure (Json.mkObj [("ok", Json.mkObj [
+    | none => pure (Json.mkObj [("fuel", .bool true), ("closed", hyp), ("bound", bound)])
+    | some (.error (.unresolved p)) => pure (Json.mkObj [("closed", hyp), ("bound", bound), ("err", Json.arr #[.str "unresolved", .str p])])
+    | some (.error (.parse f)) => pure (Json.mkObj [("closed", hyp), ("bound", bound), ("err", Json.arr #[.str "parse", Json.num (JsonNumber.fromNat f)])])
+    | some (.error .index) => pure (Json.mkObj [("closed", hyp), ("bound", bound), ("err", Json.arr #[.str "index"])])
+    | some (.ok s) => pure (Json.mkObj [("closed", hyp), ("bound", bound), ("ok", Json.mkObj [
         ("import_paths", strArr s.importPaths),
         ("imported", Json.arr (s.imported.map fun (k, a) => Json.arr #[.str k, .str a]).toArray),
         ("files", Json.arr (s.files.map fun f => Json.num (JsonNumber.fromNat f)).toArray),
